@@ -832,6 +832,11 @@ class RecordLayer(object):
         # decrypt
         #
         if self._readState.encContext:
+            if self._readState.encContext.isAEAD:
+                # SSLv2 record protection is undefined for AEAD ciphers (and
+                # AEAD objects have no decrypt()): such a record can't be
+                # authenticated
+                raise TLSBadRecordMAC("SSLv2 record with AEAD cipher")
             if self._readState.encContext.isBlockCipher:
                 blockLength = self._readState.encContext.block_size
                 if len(data) % blockLength:
